@@ -6,7 +6,8 @@ from sa.flow import arg_nodes
 from rules import tasks as T
 
 UNITS = ["lib/Commands/NinjaBuildCommand.cpp", "lib/Core/BuildEngine.cpp", "lib/Basic/Subprocess.cpp",
-         "lib/Basic/LaneBasedExecutionQueue.cpp", "lib/Basic/SerialQueue.cpp"]
+         "lib/Basic/LaneBasedExecutionQueue.cpp", "lib/Basic/SerialQueue.cpp", "lib/Ninja/Parser.cpp", "lib/Ninja/Lexer.cpp",
+         "lib/Ninja/ManifestLoader.cpp", "lib/Core/SQLiteBuildDB.cpp"]
 THOROUGH_ALL_UNITS = False
 EXPLANATION = (
     "Every task type of the Ninja driver completes exactly once on every path, through the console-queue / lane-job / "
@@ -31,6 +32,14 @@ def ninja_fn(prog, suffix):
 def run(ctx):
     prog, rep = ctx.prog, ctx.report
     T.r_complete_once(prog, rep, only_files={NB}, floor=4)
+    # the engine mechanisms the Ninja driver's order-only / implicit / discovered edges rest on
+    from rules import engine as E
+    E.r_scan_waits(prog, rep)
+    E.r_orderonly_guard(prog, rep)
+    E.r_discovered_demanded(prog, rep)
+    from rules import C17, C03
+    C17.r_input_classes(prog, rep)
+    C03.r_sql_columns(prog, rep)
 
     r = rep.rule("R-NINJA-ORDERONLY", "explicit and implicit inputs are requested as value dependencies, order-only inputs are only followed; each loop runs "
                                       "over its own iterator range", floor=3)
